@@ -111,6 +111,14 @@ pub enum Shape {
     /// Like Packets(k), with StreamToPdu's `tail` set and bursts `tail + 1`
     /// samples further apart: (k, tail).
     PacketsTail(usize, usize),
+    /// src -> FileSink (overwrite) on `tofile_path()`. No in-memory sink: the
+    /// file is the result.
+    ToFile,
+}
+
+/// Where Shape::ToFile writes (one per process).
+pub fn tofile_path() -> std::path::PathBuf {
+    std::env::temp_dir().join(format!("verif-tofile-{}.bin", std::process::id()))
 }
 
 #[derive(Clone, Debug, PartialEq)]
@@ -138,6 +146,7 @@ impl GraphSpec {
             Shape::Merge(n) => json!({"merge": n}),
             Shape::Packets(k) => json!({"packets": k}),
             Shape::PacketsTail(k, t) => json!({"packets_tail": [k, t]}),
+            Shape::ToFile => json!({"tofile": 1}),
             Shape::VecPackets(v) => json!({"vecpackets": v}),
         };
         json!({"shape": shape, "per_page": self.per_page, "pages": self.pages, "src_len": self.src_len, "order": self.order,
@@ -153,6 +162,7 @@ impl GraphSpec {
             "diamond" => Shape::Diamond(opt(&x[0]), opt(&x[1])),
             "merge" => Shape::Merge(x.as_u64().unwrap() as usize),
             "packets" => Shape::Packets(x.as_u64().unwrap() as usize),
+            "tofile" => Shape::ToFile,
             "packets_tail" => Shape::PacketsTail(x[0].as_u64().unwrap() as usize, x[1].as_u64().unwrap() as usize),
             "vecpackets" => Shape::VecPackets(x.as_array().unwrap().iter().map(|y| y.as_u64().unwrap() as usize).collect()),
             _ => panic!("shape {k}"),
@@ -175,6 +185,7 @@ impl GraphSpec {
             Shape::Diamond(a, b) => 4 + a.is_some() as usize + b.is_some() as usize,
             Shape::Merge(_) => 4,
             Shape::Packets(_) | Shape::PacketsTail(..) => 5,
+            Shape::ToFile => 2,
             Shape::VecPackets(_) => 3,
         }
     }
@@ -206,6 +217,7 @@ impl GraphSpec {
             Shape::Merge(_) => false,
             Shape::Packets(k) => *k > self.per_page * self.pages,
             Shape::PacketsTail(k, t) => *k + *t > self.per_page * self.pages,
+            Shape::ToFile => false,
             Shape::VecPackets(v) => v.iter().any(|k| *k > self.per_page * self.pages),
         }
     }
@@ -254,6 +266,7 @@ impl GraphSpec {
                 }
                 vec![out]
             }
+            Shape::ToFile => vec![],
             Shape::PacketsTail(k, tail) => {
                 // The StreamToPdu automaton, run over the whole input at
                 // once: a burst starts on the start-marked sample, the
@@ -464,6 +477,10 @@ pub fn build<T: BigT>(g: &GraphSpec) -> Built<T> {
             blocks.push(Box::new(s1));
         }
         Shape::VecPackets(_) => unreachable!(),
+        Shape::ToFile => {
+            let sink = rustradio::file_sink::FileSink::new(prev, tofile_path(), rustradio::file_sink::Mode::Overwrite).unwrap();
+            blocks.push(Box::new(sink));
+        }
         Shape::PacketsTail(k, tail) => {
             let (mark, o) = MarkBursts::with_period(prev, *k, k + 2 + tail);
             blocks.push(Box::new(mark));
